@@ -258,7 +258,7 @@ class Check:
                                     "smt2_head": text[:600]})
             elif r["status"] == "refuted":
                 violations.append((name, ob, names, r))
-            elif m.get("samples"):
+            elif m.get("samples") or m.get("replay"):
                 tiebreak.append((name, ob, names, r))
             else:
                 undecided.append((name, r))
@@ -376,8 +376,10 @@ class Check:
     def tie_break(self, name, ob):
         m = ob.meta or {}
         spec, samples = m.get("replay"), m.get("samples")
-        if not spec or not samples:
+        if not spec:
             return None
+        if not samples:
+            samples = [{}]      # the replay functions fall back to built-in default inputs
         code = ["import sys", "sys.path.insert(0, %r)" % VERIF, "import replay_lib, json",
                 "samples = %r" % (samples,), "args = %r" % (spec.get("args", {}),),
                 "for v in samples:",
